@@ -4,6 +4,7 @@ CONSTANTS
   BatchSize = 2
   ValidateFirst = FALSE
   RootCheck = FALSE
+  ResetClearsBitmap = TRUE
   MaxAdds = 100000
   MaxBad = 100000
   MaxDup = 100000
